@@ -36,3 +36,9 @@ pub proof fn lemma_fresh_arith(s: int, al: int)
     let jk = j * k;
     assert(s == jk * 4);
 }
+
+/// size >= k * W  ==>  size / W >= k
+pub proof fn lemma_div_ge(size: int, k: int)
+    requires size >= k * 4,
+    ensures size / 4 >= k,
+{}
